@@ -48,7 +48,8 @@ Qed.
 
 (** ** through an OverlayFS over two MemoryFS layers: the UNION the overlay shows stays a tree.
     [view_tree s0 s1]: every entry the overlay shows (in the caller's namespace) has a parent that it shows
-    as a directory.  create_dir / create_file on a path that is not shown and remove_file on a shown file -
+    as a directory.  create_dir / create_file on a path that is not shown, remove_file on a shown file and remove_dir on a
+    directory shown as empty -
     at any depth, for all layer contents, the parent chain possibly in the lower layer only - succeed and
     keep that invariant (and the write layer well formed).  Hypotheses as in the C09 theorems these are
     corollaries of; [no_collision] marks the boundary of finding D28.  (remove_file on a lower-layer
@@ -78,6 +79,17 @@ Theorem C03_overlay_remove_file_keeps_tree : forall lg ft (s0 s1 : mstate) hs (p
               wf s0' /\ view_tree s0' s1.
 Proof. exact remove_file_keeps_tree. Qed.
 
+Theorem C03_overlay_remove_dir_keeps_tree : forall lg ft (s0 s1 : mstate) hs (p : path),
+  wf s0 -> p <> [] -> user_path p -> no_collision p ->
+  (is_Some (s0 !! p) -> s0 !! whiteout_path (v0, []) p = None) ->
+  view s0 s1 p = Some NDir -> (forall n, view s0 s1 (p ++ [n]) = None) ->
+  (s0 !! (whiteout_name :: p) = None \/ is_dir s0 (whiteout_name :: p)) ->
+  Forall (not_file s0) (prefixes (removelast (whiteout_path (v0, []) p))) -> view_tree s0 s1 ->
+  exists s0', run bhandler (ovl_impl (v0, []) [(v1, [])] (CRemoveDir p)) (mstore2 s0 s1 hs lg ft) =
+                (mstore2 s0' s1 (hs ++ [HClosed]) lg ft, Ok tt) /\
+              wf s0' /\ view_tree s0' s1.
+Proof. exact remove_dir_keeps_tree. Qed.
+
 Print Assumptions C03_initial.
 Print Assumptions C03_sections.
 Print Assumptions C03_trait_calls.
@@ -88,3 +100,4 @@ Print Assumptions C03_example.
 Print Assumptions C03_overlay_create_dir_keeps_tree.
 Print Assumptions C03_overlay_create_file_keeps_tree.
 Print Assumptions C03_overlay_remove_file_keeps_tree.
+Print Assumptions C03_overlay_remove_dir_keeps_tree.
